@@ -34,6 +34,38 @@ type c09Signer struct {
 	ocert  *gx509.Certificate // certificate for the other key, same subject
 	algs   []gx509.SignatureAlgorithm
 	d      *big.Int // SM2 only
+	// further certificates for the same key and subject whose *own* signature uses another algorithm of the family or
+	// comes from an issuer of another family (what a certificate was signed with says nothing about its key)
+	alts []*gx509.Certificate
+}
+
+// stdAlg maps a gmsm signature algorithm number to the standard library's (same names, different numbering).
+func stdAlg(a gx509.SignatureAlgorithm) int {
+	switch a {
+	case gx509.SHA1WithRSA:
+		return int(stdx509.SHA1WithRSA)
+	case gx509.SHA256WithRSA:
+		return int(stdx509.SHA256WithRSA)
+	case gx509.SHA384WithRSA:
+		return int(stdx509.SHA384WithRSA)
+	case gx509.SHA512WithRSA:
+		return int(stdx509.SHA512WithRSA)
+	case gx509.SHA256WithRSAPSS:
+		return int(stdx509.SHA256WithRSAPSS)
+	case gx509.SHA384WithRSAPSS:
+		return int(stdx509.SHA384WithRSAPSS)
+	case gx509.SHA512WithRSAPSS:
+		return int(stdx509.SHA512WithRSAPSS)
+	case gx509.ECDSAWithSHA1:
+		return int(stdx509.ECDSAWithSHA1)
+	case gx509.ECDSAWithSHA256:
+		return int(stdx509.ECDSAWithSHA256)
+	case gx509.ECDSAWithSHA384:
+		return int(stdx509.ECDSAWithSHA384)
+	case gx509.ECDSAWithSHA512:
+		return int(stdx509.ECDSAWithSHA512)
+	}
+	return 0
 }
 
 func algName(a gx509.SignatureAlgorithm) string {
@@ -92,7 +124,7 @@ func runC09(c *Ctx) {
 			rep.Violation("C09/harness/cannot-create-sm2-issuer", fmt.Sprint(err, err2), nil)
 			return
 		}
-		signers = append(signers, &c09Signer{"sm2", k, o, cc, oc, []gx509.SignatureAlgorithm{0, gx509.SM2WithSM3, gx509.SM2WithSHA1, gx509.SM2WithSHA256}, k.D})
+		signers = append(signers, &c09Signer{"sm2", k, o, cc, oc, []gx509.SignatureAlgorithm{0, gx509.SM2WithSM3, gx509.SM2WithSHA1, gx509.SM2WithSHA256}, k.D, nil})
 	}
 	mkStd := func(family string, k, o crypto.Signer, algs []gx509.SignatureAlgorithm) {
 		pubOf := func(s crypto.Signer) interface{} { return s.Public() }
@@ -114,7 +146,7 @@ func runC09(c *Ctx) {
 			rep.Note("could not mint issuer certificate for " + family)
 			return
 		}
-		signers = append(signers, &c09Signer{family, k, o, cc, oc, algs, nil})
+		signers = append(signers, &c09Signer{family, k, o, cc, oc, algs, nil, nil})
 	}
 	rk1, rk2 := cachedRSA()
 	mkStd("rsa", rk1, rk2, []gx509.SignatureAlgorithm{0, gx509.SHA1WithRSA, gx509.SHA256WithRSA, gx509.SHA384WithRSA, gx509.SHA512WithRSA, gx509.SHA256WithRSAPSS, gx509.SHA384WithRSAPSS, gx509.SHA512WithRSAPSS})
@@ -126,6 +158,64 @@ func runC09(c *Ctx) {
 		k1, _ := ecdsa.GenerateKey(cv.c, r)
 		k2, _ := ecdsa.GenerateKey(cv.c, r)
 		mkStd(cv.name, k1, k2, []gx509.SignatureAlgorithm{0, gx509.ECDSAWithSHA256, gx509.ECDSAWithSHA384, gx509.ECDSAWithSHA512})
+	}
+
+	// alternative issuer certificates (same key, same subject, differently signed)
+	{
+		byFam := map[string]*c09Signer{}
+		for _, s := range signers {
+			byFam[s.family] = s
+		}
+		tmplOf := func(s *c09Signer) *gx509.Certificate {
+			return &gx509.Certificate{SerialNumber: big.NewInt(77), Subject: s.cert.Subject, NotBefore: fixedNow.Add(-time.Hour), NotAfter: fixedNow.Add(time.Hour), IsCA: true, BasicConstraintsValid: true,
+				KeyUsage: gx509.KeyUsageCertSign | gx509.KeyUsageCRLSign, SubjectKeyId: s.cert.SubjectKeyId}
+		}
+		addAlt := func(s *c09Signer, t *gx509.Certificate, parent *gx509.Certificate, signer crypto.Signer) {
+			if parent == nil {
+				parent = t
+			}
+			var der []byte
+			var err error
+			if smPub, ok := s.key.Public().(*sm2.PublicKey); ok {
+				if pi := mon.Guard(func() { der, err = gx509.CreateCertificate(t, parent, smPub, signer) }); pi != nil || err != nil {
+					rep.Note(fmt.Sprintf("alternative issuer certificate for %s not created: %v %v", s.family, pi, err))
+					return
+				}
+			} else {
+				// RSA / ECDSA subject keys: minted with the standard library (gmsm issues for SM2 subject keys only)
+				st := &stdx509.Certificate{SerialNumber: t.SerialNumber, Subject: t.Subject, NotBefore: t.NotBefore, NotAfter: t.NotAfter, IsCA: true, BasicConstraintsValid: true,
+					KeyUsage: stdx509.KeyUsageCertSign | stdx509.KeyUsageCRLSign, SubjectKeyId: t.SubjectKeyId, SignatureAlgorithm: stdx509.SignatureAlgorithm(stdAlg(t.SignatureAlgorithm))}
+				sp := st
+				if parent != t {
+					if pp, e := stdx509.ParseCertificate(parent.Raw); e == nil {
+						sp = pp
+					} else {
+						return
+					}
+				}
+				if der, err = stdx509.CreateCertificate(r, st, sp, s.key.Public(), signer); err != nil {
+					rep.Note(fmt.Sprintf("alternative issuer certificate for %s not created: %v", s.family, err))
+					return
+				}
+			}
+			if cc, e := gx509.ParseCertificate(der); e == nil {
+				s.alts = append(s.alts, cc)
+			}
+		}
+		for _, s := range signers {
+			for _, a := range s.algs[1:] { // self-signed with each explicit algorithm of the family
+				t := tmplOf(s)
+				t.SignatureAlgorithm = a
+				addAlt(s, t, nil, s.key)
+			}
+		}
+		// cross-family: an SM2 CA certified by an RSA root, a P-256 CA certified by an RSA root
+		if sm, rs := byFam["sm2"], byFam["rsa"]; sm != nil && rs != nil {
+			addAlt(sm, tmplOf(sm), rs.cert, rs.key)
+			if p := byFam["p256"]; p != nil {
+				addAlt(p, tmplOf(p), rs.cert, rs.key)
+			}
+		}
 	}
 
 	verifyUnder := func(s *c09Signer, iss *gx509.Certificate, alg gx509.SignatureAlgorithm, tbs, sig []byte) error {
@@ -711,11 +801,15 @@ func runC09(c *Ctx) {
 		{
 			var der []byte
 			var err error
-			cls := fmt.Sprintf("crl/CreateCRL/%s/revoked=%d", s.family, len(revoked))
-			if pi := mon.Guard(func() { der, err = s.cert.CreateCRL(rand.Reader, s.key, revoked, now, exp) }); pi != nil {
-				rep.Violation("C09/CreateCRL/panic/"+pi.Func, pi.Value, map[string]interface{}{"signer": s.family})
+			// the issuer certificate is the standard one or one of the differently-signed alternatives for the same key
+			issuers := append([]*gx509.Certificate{s.cert}, s.alts...)
+			iss := issuers[c09AlgIdx(c, s.family, i)%len(issuers)]
+			cls := fmt.Sprintf("crl/CreateCRL/%s/issuer-cert-signed-with=%s/revoked=%d", s.family, algName(iss.SignatureAlgorithm), len(revoked))
+			wi := map[string]interface{}{"signer": s.family, "issuer_certificate_signature_algorithm": algName(iss.SignatureAlgorithm), "issuer_certificate": mon.Hex(iss.Raw)}
+			if pi := mon.Guard(func() { der, err = iss.CreateCRL(rand.Reader, s.key, revoked, now, exp) }); pi != nil {
+				rep.Violation("C09/CreateCRL/panic/"+pi.Func, pi.Value, wi)
 			} else if err != nil {
-				rep.Violation("C09/CreateCRL/error/"+s.family, err.Error(), map[string]interface{}{"signer": s.family})
+				rep.Violation("C09/CreateCRL/error/"+s.family+"/issuer-cert-signed-with="+algName(iss.SignatureAlgorithm), err.Error(), wi)
 			} else {
 				checkCRL("CreateCRL", 0, der, nil)
 			}
